@@ -33,6 +33,7 @@ type conn struct {
 	onClose  func(*websocket.Conn)
 	once     sync.Once
 	cancel   context.CancelFunc
+	closed   error
 }
 
 func dial(ctx context.Context) (*websocket.Conn, error) {
@@ -63,10 +64,15 @@ func newConn(ctx context.Context, onConnect func(*websocket.Conn) *websocket.Con
 	}, nil
 }
 
-func (c *conn) store(index int, resultChan chan data) {
+// store registers resultChan, unless the connection has been closed: nobody would answer it.
+func (c *conn) store(index int, resultChan chan data) error {
 	c.lock.Lock()
+	defer c.lock.Unlock()
+	if c.closed != nil {
+		return c.closed
+	}
 	c.results[index] = resultChan
-	c.lock.Unlock()
+	return nil
 }
 
 func (c *conn) delete(index int) {
@@ -103,7 +109,9 @@ func (c *conn) Transport(ctx context.Context, request []byte) (response []byte, 
 	index := int(atomic.AddInt32(&c.counter, 1) & 0x7fffffff)
 	resultChan := make(chan data, 1)
 	verifPoint("transport.beforeStore")
-	c.store(index, resultChan)
+	if err = c.store(index, resultChan); err != nil {
+		return nil, err
+	}
 	verifPoint("transport.afterStore")
 	select {
 	case <-ctx.Done():
@@ -234,6 +242,13 @@ func (c *conn) Close(err error) {
 			c.cancel()
 		}
 	})
+	c.lock.Lock()
+	if c.closed == nil {
+		if c.closed = err; err == nil {
+			c.closed = core.ErrClosed
+		}
+	}
+	c.lock.Unlock()
 	verifPoint("close.beforeClean")
 	c.rangeAndClean(func(index int, resultChan chan data) {
 		resultChan <- data{
